@@ -230,3 +230,51 @@ M("c04-euclid-manhattan", "C04", "cola/libavoid/geometry.cpp",
   "double euclideanDist(const Point& a, const Point& b)\n{\n    double xdiff = a.x - b.x;\n    double ydiff = a.y - b.y;\n\n    return sqrt((xdiff * xdiff) + (ydiff * xdiff));", mention=["EUCLID-FORM"])
 M("c04-edge-length-wrong", "C04", "cola/libavoid/graph.cpp",
   "    m_dist = dist;", "    m_dist = dist * 0.999;", mention=["EDGE-LENGTH"])
+
+# ---------------------------------------------------------------- C07
+M("c07-boundary-alt-swapped", "C07", "cola/libcola/compound_constraints.cpp",
+  "        vpsc::Constraint constraint = vpsc::Constraint(\n                variable, vs[_primaryDim][info->varIndex], info->distOffset);",
+  "        vpsc::Constraint constraint = vpsc::Constraint(\n                vs[_primaryDim][info->varIndex], variable, info->distOffset);",
+  mention=["TRANSLATOR-AGREEMENT", "BoundaryConstraint"])
+M("c07-align-alt-inequality", "C07", "cola/libcola/compound_constraints.cpp",
+  "    vpsc::Constraint constraint(variable, vs[_primaryDim][info->varIndex], \n            info->distOffset, true);",
+  "    vpsc::Constraint constraint(variable, vs[_primaryDim][info->varIndex], \n            info->distOffset);", mention=["TRANSLATOR-AGREEMENT", "AlignmentConstraint"])
+M("c07-multisep-gen-gap", "C07", "cola/libcola/compound_constraints.cpp",
+  "        vpsc::Constraint *c = new vpsc::Constraint(\n                c1->variable, c2->variable, sep, equality);", "        vpsc::Constraint *c = new vpsc::Constraint(\n                c1->variable, c2->variable, -sep, equality);",
+  mention=["TRANSLATOR-AGREEMENT", "MultiSeparationConstraint"])
+M("c07-creator-dropped", "C07", "cola/libcola/compound_constraints.cpp",
+  "            constraint->creator = this;\n            cs.push_back(constraint);\n        }\n    }\n}\n\n\nSubConstraintAlternatives \nBoundaryConstraint",
+  "            cs.push_back(constraint);\n        }\n    }\n}\n\n\nSubConstraintAlternatives \nBoundaryConstraint", mention=["CREATOR-RECORDED", "BoundaryConstraint"])
+M("c07-extra-constraints-skipped", "C07", "cola/libcola/colafd.cpp",
+  "        // Add non-overlap constraints, but not variables again.\n        setupExtraConstraints(extraConstraints, dim, vs, cs, boundingBoxes);\n        // Projection.\n        project(vs,cs,coords);",
+  "        // Add non-overlap constraints, but not variables again.\n        if (!extraConstraints.empty() && preIteration == nullptr) setupExtraConstraints(extraConstraints, dim, vs, cs, boundingBoxes);\n        // Projection.\n        project(vs,cs,coords);",
+  mention=["PROJECTION-COMPLETE", "moveTo"])
+M("c07-setup-skips-last", "C07", "cola/libcola/colafd.cpp",
+  "    for (CompoundConstraints::const_iterator c = ccs.begin();\n            c != ccs.end(); ++c)\n    {\n        (*c)->generateSeparationConstraints(dim, vs, cs, boundingBoxes);\n    }\n}\n\n\nstatic void setupExtraConstraints",
+  "    for (CompoundConstraints::const_iterator c = ccs.begin();\n            c != ccs.end(); ++c)\n    {\n        if ((*c)->priority() > 50000) continue;\n        (*c)->generateSeparationConstraints(dim, vs, cs, boundingBoxes);\n    }\n}\n\n\nstatic void setupExtraConstraints",
+  mention=["PROJECTION-COMPLETE", "setupVarsAndConstraints"])
+M("c07-unsat-report-inverted", "C07", "cola/libcola/colafd.cpp",
+  "        if((*c)->unsatisfiable) {\n            UnsatisfiableConstraintInfo* i=new UnsatisfiableConstraintInfo(*c);",
+  "        if((*c)->unsatisfiable && !(*c)->equality) {\n            UnsatisfiableConstraintInfo* i=new UnsatisfiableConstraintInfo(*c);", expect="silent")
+M("c07-project-partial-copy", "C07", "cola/libcola/colafd.cpp",
+  "    unsigned n=coords.size();\n    vpsc::IncSolver s(vs,cs);\n    s.solve();\n    for(unsigned i=0;i<n;++i) {", "    unsigned n=coords.size();\n    vpsc::IncSolver s(vs,cs);\n    s.solve();\n    for(unsigned i=0;i+1<n;++i) {",
+  mention=["PROJECTION-COMPLETE", "cola::project"])
+
+# ---------------------------------------------------------------- C17
+M("c17-floyd-last-writer", "C17", "cola/libcola/shortest_paths.h",
+  "        if (u != v) {\n            D[u][v] = D[v][u] = std::min(D[u][v], w);\n        }", "        D[u][v] = D[v][u] = w;",
+  mention=["APSP-EXACT", "floyd_warshall"], tu=["cola/libcola/colafd.cpp"])
+M("c17-dijkstra-relax-geq", "C17", "cola/libcola/shortest_paths.h",
+  "               && v->d > u->d+w) {", "               && v->d > u->d+w && v->p==nullptr) {", mention=["APSP-EXACT"], tu=["cola/libcola/colafd.cpp"])
+M("c17-dijkstra-one-direction", "C17", "cola/libcola/shortest_paths.h",
+  "        vs[v].neighbours.push_back(&vs[u]);\n        vs[v].nweights.push_back(w);", "        if (u < v) {\n        vs[v].neighbours.push_back(&vs[u]);\n        vs[v].nweights.push_back(w);\n        }",
+  mention=["APSP-EXACT"], tu=["cola/libcola/colafd.cpp"])
+M("c17-sentinel-scaled", "C17", "cola/libcola/colafd.cpp",
+  "            if(d==DBL_MAX) {\n                // i and j are in disconnected subgraphs\n                p=0;\n            } else {\n                d*=m_idealEdgeLength;\n            }",
+  "            if(d==DBL_MAX) {\n                // i and j are in disconnected subgraphs\n                p=0;\n            }\n            d*=m_idealEdgeLength;",
+  mention=["IDEAL-DISTANCES"])
+M("c17-nonpositive-kept", "C17", "cola/libcola/colafd.cpp",
+  "        if (eLengths[i] <= 0)\n        {", "        if (eLengths[i] < 0)\n        {", mention=["IDEAL-DISTANCES"])
+M("c17-heap-compare-link", "C17", "cola/libvpsc/pairing_heap.h",
+  "\tif( lessThan(second->element,first->element) )\n\t{\n\t\t// Attach first as leftmost child of second", "\tif( !lessThan(first->element,second->element) && first->leftChild == nullptr )\n\t{\n\t\t// Attach first as leftmost child of second",
+  mention=["APSP-EXACT"], tu=["cola/libcola/colafd.cpp"])
